@@ -128,6 +128,12 @@ def specAbs0 (smp : String) (dw dh : Nat) (u v : UInt32) (impl : String) : Optio
             s!"texel ({iu},{iv}), expected ({(want dw qu).map toString |>.getD "*"},{(want dh qv).map toString |>.getD "*"})")
         else none
 
+/-- For the repeating sampler the property fixes the texel only "for every coordinate below 2^31 in magnitude";
+beyond that (and for ±∞ / NaN) it demands no panic and an in-bounds texel, which the spec oracle checks: WHICH
+texel comes out there is not compared with the model. -/
+def repBeyond (smp : String) (cs : List UInt32) : Bool :=
+  smp == "rep" && cs.any fun c => match toRat? c with | some q => !Spec.Tex.below2p31 q | none => true
+
 /-- Beyond 2^24 texels per side `width as f32` and `w - 1.0` are rounded: failures of the clamping
 sampler there are one separate, recorded class. -/
 def specAbs (smp : String) (dw dh : Nat) (u v : UInt32) (impl : String) : Option (String × String) :=
@@ -184,7 +190,9 @@ def handle (case impl : List String) : Verdict :=
         -- the clamp that no longer panics on `0.0.clamp(0.0, -1.0)` is harmless)
         if dw == 0 || dh == 0 then Verdict.mkAmb tags else
         let vd := Verdict.ok tags
-        let vd := vd.withDiff (implStr it != outStr m) s!"model {outStr m}"
+        let beyond := repBeyond smp [ub, vb] && !it.startsWith "panic:" && m.isOk
+        let vd := if beyond then vd.addTag "beyond-2^31" else vd
+        let vd := vd.withDiff (!beyond && implStr it != outStr m) s!"model {outStr m}"
         applySpec vd (specAbs smp dw dh ub vb it)
     | _, _, _, _ => bad "abs"
   | ["rel", smp, kind, dw, dh, u, v] =>
@@ -200,8 +208,10 @@ def handle (case impl : List String) : Verdict :=
         let tags := ["rel", smp, "kind-" ++ kind, "su-" ++ coordTag su, "sv-" ++ coordTag sv] ++
           (if mr.isOk then [] else ["panic"])
         let vd := Verdict.ok tags
-        let vd := vd.withDiff (implStr r != outStr mr) s!"relative: model {outStr mr}"
-        let vd := vd.withDiff (implStr a != outStr ma) s!"scaled absolute: model {outStr ma}"
+        let beyond := repBeyond smp [su, sv] && !r.startsWith "panic:" && !a.startsWith "panic:" && mr.isOk && ma.isOk
+        let vd := if beyond then vd.addTag "beyond-2^31" else vd
+        let vd := vd.withDiff (!beyond && implStr r != outStr mr) s!"relative: model {outStr mr}"
+        let vd := vd.withDiff (!beyond && implStr a != outStr ma) s!"scaled absolute: model {outStr ma}"
         -- property: relative entry point = absolute one at the coordinate scaled by the texture size
         let vd := vd.withSpec (implStr r != implStr a) "relative-not-scaled-absolute" s!"sample gave {r}, sample_abs of the scaled coordinate gave {a}"
         applySpec vd (specAbs smp dw dh su sv r)
@@ -226,7 +236,8 @@ def handle (case impl : List String) : Verdict :=
       | some m =>
         let it := impl.getD 0 ""
         let vd := Verdict.ok ["sib", be, smp, "u-" ++ coordTag ub, "v-" ++ coordTag vb]
-        let vd := vd.withDiff (implStr it != outStr m) s!"model {outStr m}"
+        let beyond := repBeyond smp [ub, vb] && !it.startsWith "panic:" && m.isOk
+        let vd := vd.withDiff (!beyond && implStr it != outStr m) s!"model {outStr m}"
         match specAbs smp dw dh ub vb it with
         | some (k, msg) => if k == "AMB" then applySpec vd (some (k, msg)) else vd.withSpec true (be ++ "-" ++ k) msg
         | none => vd
@@ -317,8 +328,13 @@ def handle (case impl : List String) : Verdict :=
           | some (.panic _) => !(vOk && iu < dwU)
           | none => false
         let vd := Verdict.ok ["dig", smp, if np > 0 then "has-panics" else "no-panics"]
+        -- a block of the repeating sampler that reaches |u| ≥ 2^31 (or ±∞ / NaN), or whose fixed v does: WHICH
+        -- texel comes out there is outside the property; the digest is not compared (the counters below are)
+        let magBeyond (b : Nat) : Bool := b % 2147483648 ≥ 0x4f000000
+        let beyond := smp == "rep" && (magBeyond start || magBeyond (start + count - 1) || repBeyond smp [vb])
+        let vd := if beyond then vd.addTag "beyond-2^31" else vd
         let vd := vd.withDiff (!exactOk) "native channel differs from the exact model inside this block"
-        let vd := vd.withDiff (impl.getD 0 "" != hex16 h) s!"digest: model {hex16 h}"
+        let vd := vd.withDiff (!beyond && impl.getD 0 "" != hex16 h) s!"digest: model {hex16 h}"
         let vd := vd.withDiff (impl.getD 1 "" != toString np) s!"panic count: model {np}"
         -- spec on the implementation's own counters: repeat/clamp never panic, never leave the texture
         let inp := (impl.getD 1 "").toNat?.getD 0
